@@ -195,6 +195,12 @@ func ruleKillArg(c *Ctx) {
 					}
 				}
 			}
+			if yield {
+				gt := p.Fn("lua", "(*LState).GetTop")
+				cnt, isCall := cl.Call.Args[1].(*ssa.Call)
+				c.check(isCall && cnt.Call.StaticCallee() == gt && vkey(cnt.Call.Args[0]) == vkey(cl.Call.Args[0]), R, key+":yield-transfers-whole-stack", p.ipos(cl),
+					"a yield hands over everything the host function left on its stack (GetTop())", "the yield site does not transfer GetTop() values: a host function that yields more (or fewer) values than it received loses payload and leaves stale values in the coroutine's registers")
+			}
 			okc := true
 			why := ""
 			if hasErr != inThreadRun {
